@@ -169,6 +169,7 @@ void clientSendNext(Client* c) {
   size_t from = 0;
   int64_t t = 0;
   sim::Stream* s = c->s;
+  if (cuts.size() > 1) sim::count("fault.tcp_request_segmented");
   for (size_t cut : cuts) {
     if (cut <= from || cut > bytes.size()) continue;
     std::string part = bytes.substr(from, cut - from);
@@ -234,10 +235,11 @@ static void runL3(const plan::Plan& p, hz::RunResult* res, bool verbose) {
   mkdir((g_scratch + "/www/html").c_str(), 0755);
   mkdir((g_scratch + "/www/html/sub").c_str(), 0755);
   {
-    std::string csv, acl, csvz;
+    std::string csv, acl, csvz, csvzHdr = "#";
     for (auto& l : p.lines) {
       if (l.kind == "csv") csv += unhexText(l.get("l")) + "\n";
       else if (l.kind == "csvz") csvz += unhexText(l.get("l")) + "\n";
+      else if (l.kind == "csvzhdr") csvzHdr = unhexText(l.get("l"));
       else if (l.kind == "acl") acl += unhexText(l.get("l")) + "\n";
       else if (l.kind == "file") {
         std::string path = l.get("path"), data = unhexText(l.get("data"));
@@ -248,7 +250,7 @@ static void runL3(const plan::Plan& p, hz::RunResult* res, bool verbose) {
     // the first line of a CSV file names the columns; an empty/comment line selects the default columns
     writeFile(g_scratch + "/cfg/sim.csv", "#\n" + csv);
     // a second file in a sub directory: read after the files of the directory itself (readdir order of one directory is not a seam)
-    if (!csvz.empty()) { mkdir((g_scratch + "/cfg/zz").c_str(), 0755); writeFile(g_scratch + "/cfg/zz/fuzz.csv", "#\n" + csvz); }
+    if (!csvz.empty()) { mkdir((g_scratch + "/cfg/zz").c_str(), 0755); writeFile(g_scratch + "/cfg/zz/fuzz.csv", csvzHdr + "\n" + csvz); }
     writeFile(g_scratch + "/acl.csv", "#\n" + acl);
   }
   sim::setAbortHandler([res](const char* verdict, const std::string& detail) {
